@@ -242,6 +242,18 @@ theorem finalState_topoJSON : ∀ (h : List OutMsg) (s : PState),
   | m :: r, s => by
     rw [finalState_cons, histItems_cons, jsons_append, lastNonEmpty_append, finalState_topoJSON r, applyMsg_topoJSON]
 
+theorem applyMsg_topoSrc (s : PState) (m : OutMsg) :
+    (applyMsg s m).topoSrc = lastNonEmpty s.topoSrc (jsons (toItems m)) := by
+  rw [jsons_toItems]
+  unfold applyMsg
+  cases m.info <;> cases m.avail <;> cases m.topo <;> simp [lastNonEmpty, setIfNonEmpty]
+
+theorem finalState_topoSrc : ∀ (h : List OutMsg) (s : PState),
+    (finalState s h).topoSrc = lastNonEmpty s.topoSrc (jsons (histItems h))
+  | [], s => rfl
+  | m :: r, s => by
+    rw [finalState_cons, histItems_cons, jsons_append, lastNonEmpty_append, finalState_topoSrc r, applyMsg_topoSrc]
+
 theorem svgs_append (a b : List Item) : svgs (a ++ b) = svgs a ++ svgs b := by simp [svgs]
 
 theorem svgs_toItems (m : OutMsg) : svgs (toItems m) = (match m.topo with | some t => [t.svg] | none => []) := by
@@ -274,6 +286,13 @@ theorem getters_return_latest (h : List OutMsg) :
     ∧ st.name = lastNonEmpty [] (names items) ∧ st.topoJSON = lastNonEmpty [] (jsons items)
     ∧ st.topoSVG = lastNonEmpty [] (svgs items) :=
   ⟨finalState_model h {}, finalState_serial h {}, finalState_name h {}, finalState_topoJSON h {}, finalState_topoSVG h {}⟩
+
+/-- the parsed topology handed out by `GetTopology` is built from the latest non-empty topology JSON received and from
+nothing else (a fresh object per update: no remains of earlier topologies) -/
+theorem topology_getter_from_latest_json (h : List OutMsg) :
+    (finalState {} h).topoSrc = lastNonEmpty [] (jsons (histItems h))
+    ∧ (finalState {} h).topoSrc = (finalState {} h).topoJSON :=
+  ⟨finalState_topoSrc h {}, by rw [finalState_topoSrc, finalState_topoJSON]⟩
 
 /-! availability map: the latest value per key -/
 
